@@ -54,6 +54,12 @@ def run(chk):
     chk.call(r4_formula, chk, f)
     chk.call(r5_length, chk, f)
     chk.call(r6_orientation_and_table, chk, f)
+    # R7: the direction "away from the neighbours" is computed with mean_plane / rotation_matrix_from_vectors: they must not
+    # alter the array handed to them nor consult hidden state (the clause C11.R5 decides, for the helpers this routine calls)
+    from . import c11
+
+    chk.borrow("C16.R7", c11.r5_pure_helpers, chk,
+               only=lambda o: "mean_plane" in o["construct"] or "rotation_matrix_from_vectors" in o["construct"])
 
 
 def _loop(f):
